@@ -1,5 +1,6 @@
 (* C05 — a Solution faithfully reports the evaluated problem.  Property theorems only. *)
-Require Import Ommx.Num Ommx.Poly Ommx.Msg Ommx.Eval Ommx.Tree Ommx.Inst Ommx.InstProofs.
+Require Import Ommx.Num Ommx.Poly Ommx.Msg Ommx.Eval Ommx.Tree Ommx.Inst Ommx.InstProofs Ommx.Subst Ommx.SubstProofs Ommx.DepsOrder Ommx.InstTotal.
+From Coq Require Import Permutation.
 
 (* the objective of the solution is the objective function's value *)
 Theorem C05_objective : forall I s sol, inst_eval I s = Some sol ->
@@ -76,3 +77,53 @@ Example C05_nonvacuous :
   exists sol, inst_eval I [(1%N, x)] = Some sol /\ so_feasible_relaxed sol = false /\ so_feasible sol = false
               /\ sget (so_state sol) 9 = Some (qz 2).
 Proof. eexists. vm_compute. repeat split. Qed.
+
+
+(* ---------------------------------------------------------------------------------------------
+   WHEN evaluation succeeds (InstTotal.v): an exact characterisation.  Every other instance-level
+   theorem is of the form "if inst_eval I s = Some sol then ..."; this one says when that is.
+   eval_ok I s = (1) every declared variable has a valid bound, (2) every entry of the state lies
+   within 1e-7 of the bound of (the last declaration of) its id, (3)/(4)/(6) every id occurring in an
+   active / removed constraint function / the objective has a value in the GIVEN state (every removed
+   entry carries a constraint), (5) reading active then removed constraints in order, every
+   constraint up to and including the first violated one has equality = 0 or <= 0, (7) the
+   dependency pass succeeds from the state overridden by the recorded fixed values. *)
+Theorem C05_succeeds_iff : forall I s, (exists sol, inst_eval I s = Some sol) <-> eval_ok I s.
+Proof. exact inst_eval_succeeds_iff. Qed.
+Print Assumptions C05_succeeds_iff.
+
+Theorem C05_fails_iff : forall I s, inst_eval I s = None <-> ~ eval_ok I s.
+Proof. exact inst_eval_fails_iff. Qed.
+Print Assumptions C05_fails_iff.
+
+(* with distinct dependency keys that have neither a given nor a fixed value, conjunct (7) is
+   "an evaluation order of the dependency map exists" *)
+Theorem C05_succeeds_iff_order : forall I s,
+  NoDup (dkeys (i_deps I)) ->
+  (forall k, In k (dkeys (i_deps I)) -> sget s k = None /\ forall d, In d (i_dvs I) -> dv_id d = k -> dv_subst d = None) ->
+  ((exists sol, inst_eval I s = Some sol) <->
+   pre_deps_ok I s /\ exists o s1, Permutation o (i_deps I) /\ seq_ok (insert_subst (i_dvs I) s) o s1).
+Proof. exact inst_eval_succeeds_iff_order. Qed.
+Print Assumptions C05_succeeds_iff_order.
+
+(* totality on the common case: no dependencies, valid bounds, supported equalities, an in-bound
+   value for every occurring variable *)
+Theorem C05_total_simple : forall I s,
+  i_deps I = [] -> bounds_valid (i_dvs I) ->
+  (forall c, In c (i_cs I) -> supported c) ->
+  (forall r, In r (i_rs I) -> exists c, r_c r = Some c /\ supported c) ->
+  (forall i v, In (i, v) s -> forall d b, In d (i_dvs I) -> dv_id d = i -> dv_bound_of d = Some b -> bcontains b v tol7 = true) ->
+  (forall i, occurs_in I i -> sget s i <> None) ->
+  exists sol, inst_eval I s = Some sol.
+Proof. exact inst_eval_total_simple. Qed.
+Print Assumptions C05_total_simple.
+
+(* the decision procedure: one boolean per conjunct *)
+Theorem C05_succeeds_iff_diagnose : forall I s,
+  (exists sol, inst_eval I s = Some sol) <-> forallb (fun b => b) (diagnose I s) = true.
+Proof. exact inst_eval_succeeds_iff_diagnose. Qed.
+Print Assumptions C05_succeeds_iff_diagnose.
+Check inst_eval_frame_iff.
+Check ex_ok.
+Check ex_sticky.
+Print Assumptions ex_ok.
